@@ -994,12 +994,18 @@ func checkC25(c *Ctx) string {
 	checkComparisonTables(c, id+".6 K9 the folder's swap / negate token tables are consistent")
 	checkInRangeRaw(c, id+".7 K14 range expressions on stored encodings honour their bounds")
 	checkBinaryRawAgrees(c, id+".8 K14 comparisons on stored encodings apply the same relation as on values")
+	if id == "C30" {
+		checkPropFoldRestores(c, "C30.9 K5 final-local propagation forgets what it learnt in one alternative before the next")
+		checkShortCircuitFlag(c, "C30.10 K9 the and/or short-circuit flag follows the previous operand")
+		checkFoldInStopsAtNonConstant(c, "C30.11 K4c `in` is folded only over constant members")
+		checkPropFoldCoversLoops(c, "C30.12 K10 final-local propagation handles every loop statement")
+	}
 	return "Decided (shared clause of C25 and C30): T1 = the two arrays of op.Opcode with constant tok.Token keys in package compile (unary/binary told apart by the node type whose Tok indexes them); " +
 		"T2 = for each case of the interpreter's switch on op.Opcode, the value left on the stack, by symbolic execution of the case body over the stack primitives, as an expression over the operands at entry (left = stack[sp-2], right = stack[sp-1]); " +
 		"T3 = the expression returned per token by the methods of ast.Binary / ast.Unary that map Value operands to a Value (eval, which the folder uses for constants and the query engine for rows), the core function handed to the n-ary helpers by Nary.Eval and Folder.foldNary, " +
 		"and the set of interpreter operator functions called by helpers such as muldiv / foldMul. Obligation for every token of T3: T3[t] equals T2[T1[t]] after inlining, on both sides, functions that consist of one returned expression plus conditional panics " +
 		"(so core.OpLt ≅ SuBool(x.Compare(y) < 0) and the two strictCompare variants are equal up to their extra panics under the StrictCompare options — the documented exception); the code generator generates Lhs before Rhs before the table's opcode. " +
-		"Binary.RawOp/EvalRaw/eval: for each token accepted for raw evaluation the comparison of stored encodings and the comparison of values apply the same relation (folded for <, ==, >). Not decided: that the byte order of encodings is the value order (C13/C28), raw evaluation of unary/n-ary nodes, And/Or (jumps), Cat folding and CatN (string building by other means), In/InRange/Trinary, compound assignment tables, final-local propagation, operand order inside the n-ary helpers, equivalence of functions that are not syntactically the same expression."
+		"Binary.RawOp/EvalRaw/eval: for each token accepted for raw evaluation the comparison of stored encodings and the comparison of values apply the same relation (folded for <, ==, >). (C30 only) final-local propagation: alternatives (if/else, try/catch, ?:, switch cases) start from the values known before them and every loop statement type has its own case (open finding F19: do-while has none); the and/or short-circuit flag follows the previous operand; `in` is folded only past constant members. Not decided: that the byte order of encodings is the value order (C13/C28), raw evaluation of unary/n-ary nodes, And/Or (jumps), Cat folding and CatN (string building by other means), In/InRange/Trinary, compound assignment tables, final-local propagation, operand order inside the n-ary helpers, equivalence of functions that are not syntactically the same expression."
 }
 
 func strSetEqual(a, b map[string]bool) bool {
